@@ -58,7 +58,7 @@ def admissibleB (T : Tables) (p b : Str) : Bool :=
 structure Den where
   coef : Rat
   exps : List (UnitId × Rat)
-deriving Repr
+deriving Repr, DecidableEq
 
 def negExps (l : List (UnitId × Rat)) : List (UnitId × Rat) := l.map (fun ue => (ue.1, -ue.2))
 
